@@ -202,3 +202,21 @@ func VHJSONLoad() {
 	c, _ := VGHeap()
 	containers.VJSONLoad(vJSON(c))
 }
+
+// VHHeapBig: one Push (single or bulk) or Pop on a LARGE heap (n up to N, far beyond the arbitrary-heap bound of
+// VHHeapStep). The cells are any ascending sequence under the comparator - a sorted array is a heap, and every comparison
+// among old cells is then decided, so only the pushed values fork. Level boundaries, size-dependent fast paths and
+// the bulk-push heapify are exercised at every size lo..N with arbitrary pushed values.
+func VHHeapBig() {
+	n := v.Split(v.IntIn("n", v.CfgOr("lo", 0), v.CfgOr("N", 32)), 0, 1024)
+	cells := make([]int, n)
+	for i := range cells {
+		cells[i] = v.Int("c")
+		if i > 0 {
+			v.Assume(!vl.Less(cells[i], cells[i-1]))
+		}
+	}
+	h := &Heap[int]{list: arraylist.New[int](cells...), Comparator: vl.Cmp}
+	v.Fresh()
+	VHeapStep(VHeapLike{Push: h.Push, Pop: h.Pop, Peek: h.Peek, Clear: h.Clear, Values: h.Values, Size: h.Size, Empty: h.Empty, String: h.String, Heap: h, Name: "BinaryHeap"}, cells)
+}
